@@ -233,9 +233,17 @@ def in_domain(req):
         if not (0 <= int(t[2]) < H and int(t[3]) >= 1):
             return False
         if t[0] == "clck.hist":
+            running = False
             for op in t[6].split(";"):
                 if op.startswith("setstart:") and not 0 <= int(op.split(":")[1]) < H:
                     return False
+                # a second start() while a thread exists is not a use the property speaks about (the code asserts)
+                if op.startswith("start:"):
+                    if running:
+                        return False
+                    running = True
+                elif op == "stop":
+                    running = False
     except (ValueError, IndexError):
         return False
     return True
